@@ -166,6 +166,13 @@ fn pure_programs(quick: bool) -> Vec<Program> {
         out.push(Program { nq: 2, body: vec![G::Conde(vec![vec![a.clone()], vec![b.clone()], vec![c.clone()]]), lits[(i + 5) % lits.len()].clone()] });
         out.push(Program { nq: 2, body: vec![G::Conde(vec![vec![a.clone(), G::Conde(vec![vec![b.clone()], vec![c.clone()]])], vec![c.clone()]])] });
         out.push(Program { nq: 2, body: vec![G::Disj(vec![a.clone(), b.clone(), c.clone()]), lits[(i + 4) % lits.len()].clone()] });
+        // the binary disjunction operator nested in itself (a disjunct that is already a stream
+        // of several answers when the outer one starts), alone and next to a conjunct
+        let inner = G::Disj(vec![a.clone(), b.clone()]);
+        out.push(Program { nq: 2, body: vec![G::Disj(vec![inner.clone(), c.clone()])] });
+        out.push(Program { nq: 2, body: vec![G::Disj(vec![inner.clone(), G::Disj(vec![c.clone(), a.clone()])]), lits[(i + 4) % lits.len()].clone()] });
+        out.push(Program { nq: 2, body: vec![G::Disj(vec![G::Disj(vec![inner.clone(), c.clone()]), b.clone()])] });
+        out.push(Program { nq: 2, body: vec![G::Dfs(vec![G::Disj(vec![inner.clone(), c.clone()]), lits[(i + 2) % lits.len()].clone()])] });
     }
     out
 }
